@@ -32,6 +32,8 @@ Atom(n) ==
     [] n = "r10_10" -> RefD(10, <<1, 0>>)
     [] n = "r12_125" -> RefD(12, <<1, 2, 5>>) [] n = "r12_1255" -> RefD(12, <<1, 2, 5, 5>>)
     [] n = "r12_155" -> RefD(12, <<1, 5, 5>>) [] n = "r12_1155" -> RefD(12, <<1, 1, 5, 5>>)
+    \* a group that contains an optional (possibly non-participating) group:  ( a ( b )? ( a ) )
+    [] n = "g_nest" -> Grp(Cat(Chr(LA), Cat(Opt(Grp(Chr(LB)), FALSE), Grp(Chr(LA)))))
     [] n = "c_ab"  -> Cls(<<IChr(LA), IChr(LB)>>, FALSE, <<>>)                              \* [ab]
     [] n = "c_na"  -> Cls(<<IChr(LA)>>, TRUE, <<>>)                                         \* [^a]
     [] n = "c_A"   -> Cls(<<IChr(UA)>>, FALSE, <<>>)                                        \* [A]
